@@ -1075,6 +1075,21 @@ func c30Generate(thorough bool) []string {
 		"INSERT INTO t %s",
 	}, inner))
 
+	// every directly nested pair of unary operators, with and without a space and parentheses: the printer must keep
+	// tokens apart that the tokenizer would otherwise fuse ("! ~a" vs the operator "!~", "- -a" vs a comment)
+	{
+		ops := []string{"-", "+", "~", "!", "NOT "}
+		var nested []string
+		for _, o1 := range ops {
+			for _, o2 := range ops {
+				nested = append(nested, "SELECT "+o1+" "+o2+"a FROM t", "SELECT "+o1+"("+o2+"a) FROM t", "SELECT "+o1+o2+"a FROM t", "SELECT b "+strings.TrimSpace(o1)+" "+o2+"a FROM t")
+				for _, o3 := range ops {
+					nested = append(nested, "SELECT "+o1+" "+o2+" "+o3+"a FROM t")
+				}
+			}
+		}
+		add(nested)
+	}
 	// odds and ends of the dialect
 	add([]string{
 		"SELECT", "SELECT 1", "SELECT 1;", "select 1 from dual", "SELECT a FROM t FOR UPDATE", "SELECT a FROM t LIMIT 1, 2",
